@@ -416,27 +416,18 @@ func c03Step(op byte, ms *yang.Modules, mods []*yang.Module, nodes []yang.Node) 
 			}
 		}
 	case 'N':
-		// ChildNode/FindNode follow `uses` statements by name without a visited set (a uses whose name
-		// leads back to itself recurses until the stack is exhausted, which recover cannot catch); that is
-		// not this property's subject, so they are only called on sets without uses statements
-		hasUses := false
-		for _, n := range nodes {
-			if n.Kind() == "uses" {
-				hasUses = true
-			}
-		}
+		// ChildNode/FindNode used to recurse without bound through an unresolved uses (D81, repaired in 64dc302);
+		// they are called on every set
 		for _, n := range nodes {
 			c03Quiet(func() { yang.Source(n) })
 			c03Quiet(func() { yang.NodePath(n) })
 			c03Quiet(func() { yang.RootNode(n) })
 			c03Quiet(func() { yang.FindModuleByPrefix(n, "r") })
 			c03Quiet(func() { yang.FindModuleByPrefix(n, "") })
-			if !hasUses {
-				c03Quiet(func() { yang.ChildNode(n, "a") })
-				c03Quiet(func() { yang.ChildNode(n, "c1") })
-				c03Quiet(func() { yang.FindNode(n, "a") })
-				c03Quiet(func() { yang.FindNode(n, "../b") })
-			}
+			c03Quiet(func() { yang.ChildNode(n, "a") })
+			c03Quiet(func() { yang.ChildNode(n, "c1") })
+			c03Quiet(func() { yang.FindNode(n, "a") })
+			c03Quiet(func() { yang.FindNode(n, "../b") })
 			c03Quiet(func() { yang.FindGrouping(n, "a", map[string]bool{}) })
 			c03Quiet(func() { yang.FindGrouping(n, "r:a", map[string]bool{}) })
 			c03Quiet(func() { yang.PrintNode(io.Discard, n) })
